@@ -51,6 +51,16 @@ pub const FIXED_FENS: &[&str] = &[
     // the only legal move is a promotion / an under-promotion capture / a castling-free king step
     "k7/2P5/1K6/8/8/8/8/8 w - - 0 1",
     "1r5k/P5pp/8/8/8/8/8/K7 w - - 0 1",
+    // a double push gives check and the only legal reply is the en-passant capture of that pawn
+    "7k/3p4/4p3/2p1P1p1/4K3/3PPP2/8/8 b - - 0 1",
+    "8/8/3ppp2/4k3/2P1p1P1/4P3/3P4/7K w - - 0 1",
+    // capture of a checker / pinner that has a second slider behind it
+    "4q3/8/8/4r3/8/2B5/8/4K2k w - - 0 1",
+    "4q3/4r3/8/8/8/8/4R3/4K2k w - - 0 1",
+    "7k/8/8/8/7b/6p1/5P2/4K3 w - - 0 1",
+    // two capturers beside the double-stepped pawn, one of them pinned
+    "4r2k/8/8/3PpP2/8/8/8/4K3 w - e6 0 1",
+    "k7/8/8/2PpP3/8/8/8/3K2q1 w - d6 0 1",
     // stalemate shape: the only pseudo-legal move is an en passant that uncovers the king
     "2b4k/p7/1n6/KPp4r/8/8/8/8 w - c6 0 1",
     "k4b2/7p/6n1/r4pPK/8/8/8/8 w - f6 0 1",
